@@ -24,12 +24,14 @@ def out_attr(typ, kind):
 
 
 def in_attr(typ, kind):
-    """kind 't' trigger / 'm' non-trigger (measurement)"""
+    """kind 't' trigger / 'm' non-trigger (measurement); 't2' / 'm2' = a second attribute of the same kind"""
+    suffix = '2' if kind.endswith('2') else ''
+    kind = kind[0]
     if typ == TB:
-        return 'im' if kind == 'm' else None
+        return 'im' + suffix if kind == 'm' else None
     if typ == EV:
-        return 'it' if kind == 't' else None
-    return 'it' if kind == 't' else 'im'
+        return 'it' + suffix if kind == 't' else None
+    return ('it' if kind == 't' else 'im') + suffix
 
 
 def default_kinds(st, dt):
@@ -51,7 +53,7 @@ def mk(name, tree, types, edges, init=None, tags=()):
         assert sa and da, (name, e)
         k = o.get('k', 0)
         weak = bool(o.get('weak', False))
-        needed = ik == 'm' and (weak or not (type(k) is int and k == 0))
+        needed = ik[0] == 'm' and (weak or not (type(k) is int and k == 0))
         initial = o.get('initial', needed)
         d = {'src': src, 'dst': dst, 'sa': sa, 'da': da, 'k': k, 'weak': weak, 'initial': bool(initial)}
         if 'kmin' in o:
@@ -96,6 +98,11 @@ def curated():
     a(mk('tbchain3', ['A', 'B', 'C'], {'A': 'tb', 'B': 'tb', 'C': 'tb'}, [('A', 'B'), ('B', 'C')], tags=['data', 'lazy']))
     a(mk('fanin', ['A', 'B', 'C'], {'A': 'tb', 'B': 'ev', 'C': 'hy'}, [('A', 'C', {'i': 'm'}), ('B', 'C', {'i': 't'})],
          init={'B': 0}, tags=['data', 'trigger']))
+    a(mk('fanin_same', ['A', 'B', 'C'], {'A': 'tb', 'B': 'ev', 'C': 'hy'}, [('A', 'C', {'i': 't'}), ('B', 'C', {'i': 't'})],
+         init={'B': 0}, tags=['data', 'trigger', 'mixed']))
+    a(mk('fanin_same2', ['A', 'B', 'C'], {'A': 'hy', 'B': 'hy', 'C': 'hy'}, [('A', 'C', {'o': 'p', 'i': 'm'}), ('B', 'C', {'o': 'p', 'i': 'm'}),
+                                                                              ('B', 'C', {'o': 'e', 'i': 't'})],
+         tags=['data', 'trigger', 'mixed']))
     a(mk('fanout', ['A', 'B', 'C'], {'A': 'hy', 'B': 'hy', 'C': 'tb'}, [('A', 'B'), ('A', 'C', {'o': 'p'})], tags=['data', 'trigger']))
     a(mk('loop3shift', ['A', 'B', 'C'], {'A': 'hy', 'B': 'hy', 'C': 'hy'}, [('A', 'B'), ('B', 'C'), ('C', 'A', {'k': 1})],
          tags=['cycle', 'trigger']))
@@ -107,6 +114,17 @@ def curated():
          tags=['weak', 'groups', 'trigger']))
     a(mk('reenter', [['A', 'C'], 'B'], {'A': 'hy', 'B': 'hy', 'C': 'hy'}, [('A', 'B'), ('B', 'C'), ('A', 'C')],
          tags=['groups', 'trigger', 'delay']))
+    # --- multi-edges between one pair with different delays
+    a(mk('multi_shift', ['A', 'B'], {'A': 'ev', 'B': 'ev'}, [('A', 'B'), ('A', 'B', {'k': 2, 'i': 't2'})], init={'A': 0}, tags=['multi', 'trigger']))
+    a(mk('multi_shift_rev', ['A', 'B'], {'A': 'ev', 'B': 'ev'}, [('A', 'B', {'k': 2}), ('A', 'B', {'i': 't2'})], init={'A': 0}, tags=['multi', 'trigger']))
+    a(mk('multi_shift_sym', ['A', 'B'], {'A': 'hy', 'B': 'hy'}, [('A', 'B'), ('A', 'B', {'k': 'sym', 'i': 't2'})], tags=['multi', 'trigger', 'nocache']))
+    a(mk('multi_weak', [['A', 'B']], {'A': 'hy', 'B': 'hy'}, [('A', 'B'), ('A', 'B', {'weak': True, 'i': 't2'})], tags=['multi', 'trigger', 'weak']))
+    a(mk('multi_tb', ['A', 'B'], {'A': 'tb', 'B': 'tb'}, [('A', 'B'), ('A', 'B', {'k': 1, 'i': 'm2'})], tags=['multi', 'data']))
+    # --- four simulators: two routes between one pair, one of which leaves the group
+    a(mk('tworoutes', [['A', 'D', 'C'], 'B'], {'A': 'ev', 'B': 'ev', 'C': 'ev', 'D': 'ev'},
+         [('A', 'C'), ('A', 'B'), ('B', 'D'), ('D', 'C', {'weak': True})], init={'A': 0}, tags=['groups', 'delay', 'four']))
+    a(mk('tworoutes_flat', ['A', 'D', 'C', 'B'], {'A': 'ev', 'B': 'ev', 'C': 'ev', 'D': 'ev'},
+         [('A', 'C'), ('A', 'B'), ('B', 'D'), ('D', 'C')], init={'A': 0}, tags=['delay', 'four']))
     return T
 
 
